@@ -1,27 +1,30 @@
 #!/bin/bash
 # usage: verify_seed.sh <dir with patch.diff demo.py meta.json> <Cxx> [more Cxx checks to run]
 # 1. confirms in a scratch worktree: demo passes clean, fails patched, baseline stable tests still pass
-# 2. applies the patch to /repo, runs the quick check(s), restores /repo
+# 2. applies the patch to /repo (or $BYCYCLE_REPO; then also export PYTHONPATH=$BYCYCLE_REPO), runs the quick check(s), restores it
 set -u
+REPO=${BYCYCLE_REPO:-/repo}
+VERIF=$(cd $(dirname $0)/..; pwd)
 D=$1; shift
 P=$1
 WT=/tmp/vseed_$$
-git -C /repo worktree add --detach $WT HEAD >/dev/null 2>&1 || { echo "worktree failed"; exit 2; }
-cleanup() { git -C /repo worktree remove --force $WT >/dev/null 2>&1; }
+LOG=/tmp/vseedlog_$$; mkdir -p $LOG
+git -C $REPO worktree add --detach $WT HEAD >/dev/null 2>&1 || { echo "worktree failed"; exit 2; }
+cleanup() { git -C $REPO worktree remove --force $WT >/dev/null 2>&1; rm -rf $LOG; }
 trap cleanup EXIT
 cd $WT
-PYTHONPATH=$WT timeout 300 /venv/bin/python $D/demo.py >/tmp/vseed_clean.log 2>&1; c=$?
+PYTHONPATH=$WT timeout 300 /venv/bin/python $D/demo.py >$LOG/clean.log 2>&1; c=$?
 git apply $D/patch.diff || { echo "PATCH DOES NOT APPLY"; exit 2; }
-PYTHONPATH=$WT timeout 300 /venv/bin/python $D/demo.py >/tmp/vseed_patched.log 2>&1; p=$?
+PYTHONPATH=$WT timeout 300 /venv/bin/python $D/demo.py >$LOG/patched.log 2>&1; p=$?
 echo "demo clean exit=$c patched exit=$p"
-/verif/tools/baseline_check.py $WT | tail -3
+$VERIF/tools/baseline_check.py $WT | tail -3
 b=$?
-cd /verif
-git -C /repo apply $D/patch.diff || { echo "apply to /repo failed"; exit 2; }
+cd $VERIF
+git -C $REPO apply $D/patch.diff || { echo "apply to $REPO failed"; exit 2; }
 for chk in "$@"; do
-  timeout 1800 ./check $chk > /tmp/vseed_check_$chk.log 2>&1; r=$?
-  echo "check $chk exit=$r: $(grep -c '^VIOLATION' /tmp/vseed_check_$chk.log) violation lines; $(tail -1 /tmp/vseed_check_$chk.log)"
-  grep '^VIOLATION' /tmp/vseed_check_$chk.log | head -2
+  timeout 1800 ./check $chk > $LOG/check_$chk.log 2>&1; r=$?
+  echo "check $chk exit=$r: $(grep -c '^VIOLATION' $LOG/check_$chk.log) violation lines; $(tail -1 $LOG/check_$chk.log)"
+  grep '^VIOLATION' $LOG/check_$chk.log | head -2
 done
-git -C /repo checkout -- .
-git -C /repo status --short | head -3
+git -C $REPO checkout -- .
+git -C $REPO status --short | head -3
